@@ -297,6 +297,39 @@ Theorem C03_ingest_window_needs_start_update :
 Proof. exact window_needs_start_update. Qed.
 Print Assumptions C03_ingest_window_needs_start_update.
 
+(* the per-segment "has results" flag of a persistent query is the OR over the segment's blocks, so the answer of a
+   rotated segment served from the persistent-query results is the union of its blocks' matches = the matching
+   events of the segment, for ANY split into blocks and any position of the matching events *)
+Theorem C03_pqs_segment_flag_is_or : forall (event : Type) (m : event -> bool) blocks,
+  seg_nonempty event m blocks = existsb m (concat blocks).
+Proof. exact seg_nonempty_is_or. Qed.
+Print Assumptions C03_pqs_segment_flag_is_or.
+
+Theorem C03_pqs_segment_answer_is_union : forall (event : Type) (m : event -> bool) blocks,
+  pqs_seg_answer event m (seg_nonempty event m blocks) blocks = filter m (concat blocks).
+Proof. exact pqs_segment_answer_is_union. Qed.
+Print Assumptions C03_pqs_segment_answer_is_union.
+
+Theorem C03_pqs_segment_answer_split_invariant : forall (event : Type) (m : event -> bool) b1 b2,
+  concat b1 = concat b2 ->
+  pqs_seg_answer event m (seg_nonempty event m b1) b1 = pqs_seg_answer event m (seg_nonempty event m b2) b2.
+Proof. exact pqs_segment_answer_split_invariant. Qed.
+Print Assumptions C03_pqs_segment_answer_split_invariant.
+
+(* a flag taken from the last flushed block alone is only right when that block matches; [match],[no match] loses the match *)
+Theorem C03_pqs_last_block_flag_guarded : forall (event : Type) (m : event -> bool) blocks,
+  blocks <> [] -> block_any event m (last blocks []) = true ->
+  seg_nonempty_last event m blocks = seg_nonempty event m blocks.
+Proof. exact seg_nonempty_last_guarded. Qed.
+Print Assumptions C03_pqs_last_block_flag_guarded.
+
+Theorem C03_pqs_last_block_flag_refuted :
+  exists (m : N -> bool) blocks,
+    pqs_seg_answer N m (seg_nonempty_last N m blocks) blocks <> filter m (concat blocks)
+    /\ pqs_seg_answer N m (seg_nonempty N m blocks) blocks = filter m (concat blocks).
+Proof. exact pqs_last_block_flag_refuted. Qed.
+Print Assumptions C03_pqs_last_block_flag_refuted.
+
 (* ----- statistics: merge order, pre-aggregated segment statistics ----- *)
 Theorem C03_merge_order_irrelevant :
   forall (S : Type) (merge : S -> S -> S) (unit : S),
